@@ -373,6 +373,7 @@ class HttpStreamSession:
         "_on_log",
         "_output_schema",
         "_pending_batches",
+        "_pending_error",
         "_retry_config",
         "_state_bytes",
         "_url_prefix",
@@ -395,6 +396,7 @@ class HttpStreamSession:
         header: object | None = None,
         retry_config: HttpRetryConfig | None = None,
         compression_level: int | None = None,
+        pending_error: RpcError | None = None,
     ) -> None:
         """Initialize with HTTP client, method details, and initial state."""
         self._client = client
@@ -411,6 +413,11 @@ class HttpStreamSession:
         self._external_config = external_config
         self._ipc_validation = ipc_validation
         self._pending_batches: list[AnnotatedBatch] = pending_batches or []
+        # An error the init turn hit *after* it had already produced a header
+        # or data batches.  Raised once that output has been handed over, so
+        # the caller sees header, batches, error -- the order every other
+        # transport (and an uncapped HTTP server) delivers them in.
+        self._pending_error = pending_error
         self._finished = finished
         self._header = header
         self._retry_config = retry_config
@@ -533,6 +540,9 @@ class HttpStreamSession:
             RpcError: If the server reports an error or the stream has finished.
 
         """
+        if self._pending_error is not None:
+            err, self._pending_error = self._pending_error, None
+            raise err
         if self._state_bytes is None:
             raise RpcError("ProtocolError", "Stream has finished — no state token available", "")
 
@@ -633,6 +643,10 @@ class HttpStreamSession:
         yield from self._pending_batches
         self._pending_batches.clear()
 
+        if self._pending_error is not None:
+            err, self._pending_error = self._pending_error, None
+            raise err
+
         if self._finished:
             return
 
@@ -706,6 +720,10 @@ class HttpStreamSession:
             if len(self._pending_batches) > 1:
                 raise RuntimeError(_multi)
             return self._pending_batches.pop(0), self._resume_token()
+
+        if self._pending_error is not None:
+            err, self._pending_error = self._pending_error, None
+            raise err
 
         if self._finished or self._state_bytes is None:
             self._finished = True
@@ -1009,6 +1027,7 @@ def _init_http_stream_session(
     state_bytes: bytes | None = None
     call_state_bytes: bytes | None = None
     pending_batches: list[AnnotatedBatch] = []
+    pending_error: RpcError | None = None
     finished = False
 
     try:
@@ -1041,11 +1060,18 @@ def _init_http_stream_session(
                 batch, custom_metadata, external_config, on_log, reader.ipc_validation
             )
             pending_batches.append(AnnotatedBatch(batch=resolved_batch, custom_metadata=resolved_cm))
-    except RpcError:
+    except RpcError as exc:
         _drain_stream(reader)
-        raise
-
-    _drain_stream(reader)
+        if header is None and not pending_batches:
+            raise
+        # The init turn ran several producer steps and one of them failed
+        # after earlier ones had produced output.  Raising here would discard
+        # the header and those batches; keep them and surface the error when
+        # the caller has consumed them.
+        pending_error = exc
+        finished = True
+    else:
+        _drain_stream(reader)
 
     return HttpStreamSession(
         client=client,
@@ -1062,6 +1088,7 @@ def _init_http_stream_session(
         header=header,
         retry_config=retry_config,
         compression_level=compression_level,
+        pending_error=pending_error,
     )
 
 
